@@ -30,7 +30,7 @@ ASSUMPTIONS = [
 ]
 ALL_TYPES = sorted(set(ALL_IN_TYPES) | {f"OUT:{t}" for t in OUT_TYPES} | {"MOVE:fee", "MOVE:no-fee", "MOVE:self"})
 SETTINGS: Dict[str, Dict[str, Any]] = {
-    "quick": {"cases": 3000, "cli_cases": 12, "budget_s": 45, "minimums": {"events_checked": 8000, "nontrivial": 500, "cli_runs": 6}, "required_tags": {"tag_types": ALL_TYPES}},
+    "quick": {"cases": 3000, "cli_cases": 64, "budget_s": 45, "minimums": {"events_checked": 8000, "nontrivial": 500, "cli_runs": 6}, "required_tags": {"tag_types": ALL_TYPES}},
     "thorough": {"cases": 100000, "cli_cases": 200, "budget_s": 300, "minimums": {"events_checked": 300000, "nontrivial": 20000, "cli_runs": 100}, "required_tags": {"tag_types": ALL_TYPES}},
 }
 
